@@ -173,9 +173,8 @@ def r34(ctx):
     from ..bb import bb
     bb(('unit',), ctx.an())
     sub = Sub(ctx, {'C02.R5': 'C05.R3', 'C02.R7': 'C05.R4', 'C02.R8': 'C05.R4'})
-    sn = c02.summary(sub, c02.MN, 'C02.R5')
-    if sn is not None:
-        c02.r48(sub, sn)
+    for s_, res_, key_ in c02.bodies(sub):
+        c02.r48(sub, s_, result=res_, KEY=key_)
 
 
 def r5(ctx):
